@@ -854,6 +854,7 @@ class AVOID_EXPORT Router {
         unsigned int m_largest_assigned_id;
         bool m_consolidate_actions;
         bool m_currently_calling_destructors;
+        bool m_currently_processing_transaction;
         double m_routing_parameters[lastRoutingParameterMarker];
         bool m_routing_options[lastRoutingOptionMarker];
         
